@@ -24,6 +24,8 @@ REPO = os.environ.get('PYVC_REPO', '/repo')
 sys.path.insert(0, REPO)
 
 from pyvc import lang          # noqa: E402
+import logging                 # noqa: E402
+logging.disable(logging.CRITICAL)
 
 
 class OpaqueRaised(Exception):
@@ -32,6 +34,13 @@ class OpaqueRaised(Exception):
     def __init__(self, name):
         super().__init__('opaque callee %s raised' % name)
         self.name = name
+
+
+def snap(x):
+    """what an event records of an argument: containers by value (they may be mutated later), objects by identity"""
+    if isinstance(x, (list, tuple, dict, bytes, bytearray, str, int, bool)) or x is None or hasattr(type(x), '__deepcopy__'):
+        return norm(copy.deepcopy(x))
+    return x
 
 
 def norm(v):
@@ -47,6 +56,22 @@ def norm(v):
     if isinstance(v, dict):
         return {k: norm(x) for k, x in v.items()}
     return v
+
+
+class SpecStr(list):
+    """a text / bytes literal of a contract, equal to the same text whether the run-time side was normalised or not"""
+
+    def __init__(self, v):
+        super().__init__(norm(v))
+
+    def __eq__(self, o):
+        r = list.__eq__(self, norm(o) if isinstance(o, (str, bytes, bytearray)) else o)
+        return False if r is NotImplemented else r
+
+    def __ne__(self, o):
+        return not self.__eq__(o)
+
+    __hash__ = None
 
 
 class View:
@@ -139,6 +164,11 @@ def build_value(ty, val, scenario, events):
         p = ConnProxy(ty.args[0], (val or {}).get('rows') if isinstance(val, dict) else None)
         scenario.setdefault('$cleanup', []).append(p)
         return p
+    if n == 'DictStrStr':
+        if isinstance(val, dict):
+            return dict(val)
+        return dict((''.join(map(chr, k)) if not isinstance(k, str) else k,
+                     ''.join(map(chr, v)) if not isinstance(v, str) else v) for k, v in (val or []))
     if n == 'DictStrObj':
         return dict((''.join(map(chr, k)) if not isinstance(k, str) else k, v) for k, v in (val or []))
     raise ValueError('native: cannot build a value of type %r' % (ty,))
@@ -342,6 +372,15 @@ def db_env(E):
         cls = getattr(importlib.import_module(mod), cname)
         return cls(*[_b(a) for a in args])
 
+    def attr(n, k):
+        return norm(raw(n).getAttributeValue(''.join(map(chr, k)) if isinstance(k, list) else k))
+
+    def n_children(n):
+        return len(raw(n).children or [])
+
+    def child(n, i):
+        return wrap(raw(n).children[i])
+
     def same_obj(a, b):
         a, b = raw(a), raw(b)
         if hasattr(a, 'serialize') and hasattr(b, 'serialize'):
@@ -359,6 +398,7 @@ def db_env(E):
         'at_every_db_event': at_every_db_event, 'rows_all': lambda m: list(m.values()),
         'rows_unsent': lambda m: [r for r in m.values() if r[1] is None or r[1] == 0],
         'max_key': lambda m: max(m.keys()) if m else None,
+        'attr': attr, 'n_children': n_children, 'child': child,
     }
 
 
@@ -380,8 +420,15 @@ def find_class(cname):
     raise ValueError('native: class %s not found' % cname)
 
 
+def build_node(cls, val):
+    return cls(val['tag'], dict(val.get('attributes') or {}), [build_node(cls, c) for c in (val.get('children') or [])],
+               None if val.get('data') is None else bytes(val['data']))
+
+
 def build_object(cname, val, scenario, events):
     cls = find_class(cname)
+    if cname == 'ProtocolTreeNode' and isinstance(val, dict) and 'tag' in val:
+        return build_node(cls, val)       # the real constructor, recursively
     obj = object.__new__(cls)
     if val is None:
         val = {}
@@ -402,6 +449,54 @@ def install_stubs(obj, scenario, events):
             setattr(obj, mname, make_stub(ev, scenario, events))
 
 
+def install_class_stubs(objs, scenario, events):
+    """Opaque callees that are not methods of an argument (static constructors such as X.fromProtocolTreeNode, methods of
+    other repository classes): record the event and call through to the real code unless the scenario fixes the result."""
+    undo = []
+    for (file, qual), kw in lang.REGISTRY['opaques'].items():
+        if '.' not in qual:
+            continue
+        cname, mname = qual.split('.')
+        if any(any(k.__name__ == cname for k in type(o).__mro__) for o in objs):
+            continue
+        try:
+            m = importlib.import_module(file[:-3].replace('/', '.').replace('.__init__', ''))
+            cls = getattr(m, cname)
+            orig = inspect.getattr_static(cls, mname)
+        except Exception:
+            continue
+        ev = kw.get('event', mname)
+
+        def mk(cls, mname, orig, ev):
+            bound = getattr(cls, mname)
+            is_plain = not isinstance(orig, (staticmethod, classmethod))
+
+            def stub(*a, **kws):
+                k = sum(1 for e in events if e[0] == ev)
+                rs = scenario.get('opaque_results', {}).get(ev)
+                rec_args = a[1:] if is_plain else a
+                if k in scenario.get('raises_at', {}).get(ev, []):
+                    events.append((ev, [snap(x) for x in rec_args], None))
+                    raise OpaqueRaised(ev)
+                if rs is not None and k < len(rs):
+                    res = rs[k]
+                    if isinstance(res, dict) and '$opaque' in res:
+                        res = OpaqueStub(res['$opaque'], scenario, events)
+                else:
+                    try:
+                        res = bound(*a, **kws)
+                    except Exception:
+                        # the contract treats any exception of an opaque callee as propagated from that call
+                        events.append((ev, [snap(x) for x in rec_args], None))
+                        raise OpaqueRaised(ev)
+                events.append((ev, [snap(x) for x in rec_args], res))
+                return res
+            return stub if is_plain else staticmethod(stub)
+        setattr(cls, mname, mk(cls, mname, orig, ev))
+        undo.append((cls, mname, orig))
+    return undo
+
+
 def make_stub(ev, scenario, events):
     def stub(*a, **kw):
         k = sum(1 for e in events if e[0] == ev)
@@ -411,7 +506,7 @@ def make_stub(ev, scenario, events):
             res = rs[k]
             if isinstance(res, dict) and '$opaque' in res:
                 res = OpaqueStub(res['$opaque'], scenario, events)
-        events.append((ev, [norm(copy.deepcopy(x)) for x in a], res))
+        events.append((ev, [snap(x) for x in a], res))
         if k in scenario.get('raises_at', {}).get(ev, []):
             raise OpaqueRaised(ev)
         return res
@@ -499,8 +594,30 @@ class Evaluator:
                     return ast.copy_location(ast.Name(id=k, ctx=ast.Load()), n)
                 return s.generic_visit(n)
         node = T().visit(node)
+
+        class C(ast.NodeTransformer):
+            # implies(a, b) is lazy in b (b may mention an event that exists only when a holds)
+            def visit_Call(s, n):
+                n = s.generic_visit(n)
+                if isinstance(n.func, ast.Name) and n.func.id == 'implies' and len(n.args) == 2:
+                    return ast.BoolOp(op=ast.Or(), values=[ast.UnaryOp(op=ast.Not(), operand=n.args[0]), n.args[1]])
+                return n
+
+            # text literals compared with run-time text: both sides live in the spec universe (sequences of code points)
+            def visit_Compare(s, n):
+                n = s.generic_visit(n)
+                def cv(x):
+                    if isinstance(x, ast.Constant) and isinstance(x.value, (str, bytes)):
+                        return ast.Call(func=ast.Name(id='__S', ctx=ast.Load()), args=[x], keywords=[])
+                    return x
+                if all(isinstance(o, (ast.Eq, ast.NotEq)) for o in n.ops):
+                    n.left = cv(n.left)
+                    n.comparators = [cv(c) for c in n.comparators]
+                return n
+        node = C().visit(node)
         ast.fix_missing_locations(node)
         env = self.env(which)
+        env['__S'] = SpecStr
         env.update(olds)
         return eval(compile(ast.Expression(node), '<contract>', 'eval'), env)
 
@@ -546,10 +663,14 @@ def _run_case(mod, file, qualname, scenario):
             except Exception as e:
                 return {'status': 'precondition-error', 'error': repr(e)}
     result, exc = None, None
+    undo = install_class_stubs(list(args.values()), scenario, events)
     try:
         result = func(*[args[p] for p, _ in params])
     except BaseException as e:       # noqa
         exc = e
+    finally:
+        for cls_, m_, orig_ in undo:
+            setattr(cls_, m_, orig_)
     post_args = {p: _plain(v) for p, v in args.items()}
     E = Evaluator(mod, params, pre_args, post_args, events, result, exc)
     out = {'status': 'ok', 'events': [[e[0], _json(e[1])] for e in events][:20],
